@@ -223,14 +223,7 @@ Theorem C14_v_stock_diluent : forall ideal stock vmax mt p,
   plan_core ideal stock vmax mt = Ok p ->
   v_stock p = sumZ (concat (map i_vols (filter from_stock_col (dp_instr p)))) /\
   forall R, (v_diluent R p == inject_Z (Z.of_nat R) * Qsum vmax - inject_Z (v_stock p))%Q.
-Proof.
-  exact (fun ideal stock vmax mt p H =>
-           conj (c14_v_stock ideal stock vmax mt p H)
-                (fun R => eq_ind _ (fun v => (v_diluent R p == inject_Z (Z.of_nat R) * Qsum v
-                                              - inject_Z (v_stock p))%Q)
-                                 (c14_v_diluent R p) _
-                                 (proj1 (proj1 (c14_complete ideal stock vmax mt) p H)))).
-Qed.
+Proof. exact c14_v_stock_diluent. Qed.
 Print Assumptions C14_v_stock_diluent.
 
 (* ------------------------------------------------------------------------------------------ *)
